@@ -21,7 +21,7 @@ def sh(cmd, cwd=None, env=None, timeout=3600):
 
 
 def run_one(name, checks, tier):
-    wt = f"/tmp/vf-seeded-{name}"
+    wt = f"/tmp/vf-seeded-{name}-{os.environ.get('VERIF_SEED', '1')}"
     sh(f"git -C /repo worktree remove --force {wt}")
     rc, out = sh(f"git -C /repo worktree add --detach {wt} HEAD")
     if rc != 0:
@@ -34,7 +34,7 @@ def run_one(name, checks, tier):
         if rc != 0:
             return name, {"error": "patch does not apply: " + out[-300:]}
         for pid in checks:
-            env = dict(os.environ, VERIF_REPO=wt, VERIF_EVIDENCE_DIR=f"/tmp/vf-seeded-ev-{name}", VERIF_REPLAY_DIR=f"/tmp/vf-seeded-rp-{name}")
+            env = dict(os.environ, VERIF_REPO=wt, VERIF_EVIDENCE_DIR=f"/tmp/vf-seeded-ev-{name}-{os.environ.get('VERIF_SEED', '1')}", VERIF_REPLAY_DIR=f"/tmp/vf-seeded-rp-{name}-{os.environ.get('VERIF_SEED', '1')}")
             rc, out = sh(f"{PY} -B -m vf {pid} --tier {tier}", cwd=ROOT, env=env)
             viol = [l.split("#")[-1].strip() for l in out.splitlines() if l.startswith("VIOLATION")]
             res[pid] = {"rc": rc, "verdict": {0: "missed", 1: "caught"}.get(rc, "error"), "sigs": viol[:6]}
@@ -42,7 +42,7 @@ def run_one(name, checks, tier):
                 res[pid]["tail"] = out[-600:]
     finally:
         sh(f"git -C /repo worktree remove --force {wt}")
-        sh(f"rm -rf /tmp/vf-seeded-ev-{name} /tmp/vf-seeded-rp-{name}")
+        sh(f"rm -rf /tmp/vf-seeded-ev-{name}-{os.environ.get('VERIF_SEED', '1')} /tmp/vf-seeded-rp-{name}-{os.environ.get('VERIF_SEED', '1')}")
     return name, res
 
 
@@ -75,7 +75,8 @@ def main():
             table.setdefault(name, {}).update(res)
             print(name, {k: (v.get("verdict") if isinstance(v, dict) else v) for k, v in res.items()},
                   [v.get("sigs") for v in res.values() if isinstance(v, dict) and v.get("sigs")][:1])
-    json.dump(table, open(path, "w"), indent=1, sort_keys=True)
+    if "--no-save" not in sys.argv:
+        json.dump(table, open(path, "w"), indent=1, sort_keys=True)
 
 
 main()
